@@ -1,5 +1,7 @@
 """C09 (encryption equals the Skein 1.3 definition) and C10 (decrypt o encrypt = id both ways),
 both as identities of normalised value graphs over symbolic key, tweak and block."""
+import os
+
 from . import bv, facts
 from .interp import Interp, Undecided, Diverge, Agg, Ptr
 from .models import M as MODELS
@@ -25,7 +27,21 @@ def find(f, pat):
     return r[0]
 
 
+FAIL_FAST = 4
+
+
 def engine_guard(fn, report, rule, key):
+    # a rule that already has several definite violations in this job is decided: further instances
+    # would only add run time (a change that bypasses a modular boundary makes every instance expensive)
+    if sum(1 for v in getattr(report, "violations", ()) if v["rule"] == rule) >= FAIL_FAST:
+        report.extra["instances_skipped_after_%d_violations" % FAIL_FAST] = report.extra.get("instances_skipped_after_%d_violations" % FAIL_FAST, 0) + 1
+        return None
+    import time as _t
+    budget = float(os.environ.get("VERIF_JOB_BUDGET", "0")) or (400.0 if getattr(report, "tier", "quick") == "quick" else 4000.0)
+    if _t.time() - getattr(report, "t0", _t.time()) > budget:
+        # fail closed instead of running for hours on a tree where every instance became expensive
+        report.undecide(rule, key, "job time budget of %ds exhausted before this instance" % budget)
+        return None
     try:
         return fn()
     except Undecided as e:
